@@ -94,9 +94,10 @@ type TStep struct {
 }
 
 type Case struct {
-	Kind  string     `json:"kind"` // sleep | ticker | ticker-real | stop-real | sleep-real
+	Kind  string     `json:"kind"` // sleep | ticker | ticker-real | stop-real | sleep-real | race-real
 	Sleep *SleepCase `json:"sleep,omitempty"`
 	Real  *RealCase  `json:"real,omitempty"`
+	Race  *RaceCase  `json:"race,omitempty"` // race_test.go
 	Steps []TStep    `json:"steps,omitempty"`
 	Seed  int64      `json:"seed"` // math/rand seed used for this case
 	// NoModel: durations too large for the model's enumeration of rand values (monitors only)
